@@ -696,6 +696,35 @@ fn random_run(rng: &mut Rng, prof: &Profile, sink: &mut Sink<RibbonEngine>) {
     }
     let segs = 3 + rng.usize(if prof.tier == Tier::Thorough { 14 } else { 9 });
     let budget = (l as u64 * 24).max(400);
+    // long-running blocks (where 8- and 16-bit counters wrap), in a small share of the runs
+    if rng.chance(0.03) && !t.dead {
+        if rng.chance(0.5) {
+            // a power-of-two-ish number of complete presses with no edge poll in between, then the polls
+            let n = rng.near_pow2(false);
+            let x = in_range(rng, b);
+            let o = out_of_range(rng, b);
+            if (l as u64 + 1) * n < 400_000 {
+                for _ in 0..n {
+                    t.push(Ev::Samples(x.to_bits(), l as u32 + rng.below(2) as u32));
+                    t.push(Ev::Samples(o.to_bits(), 1));
+                }
+                t.push(Ev::Samples(x.to_bits(), l as u32));
+                for _ in 0..2 {
+                    t.push(Ev::PollPressed);
+                    t.push(Ev::PollReleased);
+                }
+            }
+        } else {
+            // one very long press: 65 536 +- a few consecutive in-range samples and beyond
+            let n = 65_536 - l as u64 + rng.below(2 * l as u64 + 8);
+            let x = in_range(rng, b);
+            t.push(Ev::Samples(x.to_bits(), n as u32));
+            t.push(Ev::Samples(in_range(rng, b).to_bits(), 2 * l as u32 + 70_000));
+            twins_cheap(rng, &mut t);
+            t.push(Ev::Samples(out_of_range(rng, b).to_bits(), 2));
+        }
+    }
+    let budget = budget + t.ctx.steps;
     for _ in 0..segs {
         if t.dead || t.ctx.steps > budget {
             break;
@@ -785,6 +814,9 @@ fn random_run(rng: &mut Rng, prof: &Profile, sink: &mut Sink<RibbonEngine>) {
     polls(rng, &mut t, 0.5);
     sink.end(t);
 }
+
+/// after a very long press only the newest-samples twin is affordable (the others replay the whole press)
+fn twins_cheap(_rng: &mut Rng, _t: &mut Trace<RibbonEngine>) {}
 
 fn twins(rng: &mut Rng, t: &mut Trace<RibbonEngine>) {
     if t.dead || !t.exec().is_pressing() {
